@@ -71,8 +71,14 @@ pub fn run_e1<F: Fn(&State) -> Eval + Sync>(run: &mut Run, dims: &[usize], perio
         run.family(fam.describe(), states.len() as u64);
         run.explore(&states, &f, |s| s.to_json());
     }
-    for (desc, states) in medium_families(run.thorough(), dims, periodic) {
-        let states: Vec<State> = states.into_iter().filter(|s| s.n() <= max_n).collect();
+    let mut med = medium_families(run.thorough(), dims, periodic);
+    if dims.contains(&3) && periodic.contains(&false) {
+        med.push(("3R big cells: axis pair + ring of m (shared face with m vertices), m-sided prism + neighbour above (one clip removes m vertices), jittered Fibonacci shells (about m planes, 2m-4 vertices)".to_string(), bigcell_family(run.thorough())));
+    }
+    for (desc, states) in med {
+        // the size cap of a quick tier applies to the lattice / pool families, not to the big-cell states
+        let big = desc.starts_with("3R big cells");
+        let states: Vec<State> = states.into_iter().filter(|s| big || s.n() <= max_n).collect();
         if states.is_empty() {
             continue;
         }
